@@ -17,6 +17,8 @@ _LEAF_RANGE: dict[int, tuple] = {}     # ast id of BV leaf -> (lo, hi, ast)
 _CACHE: dict[str, tuple] = {}          # shape key -> ("none",) | ("affine", a, c) | ("rdiv", D, c)
 STATS = {"proved": 0, "failed": 0, "seconds": 0.0, "shapes": []}
 LEMMA_TIMEOUT_MS = 90000
+import os as _os
+XCHECK = _os.environ.get("VERIF_XCHECK", "") == "1"   # thorough tier: re-discharge every proved lemma with cvc5
 
 
 def note_leaf(e, lo, hi):
@@ -129,8 +131,19 @@ def _prove(shape, v, lo, hi, nbits):
         dt = time.perf_counter() - t0
         STATS["seconds"] += dt
         if r == z3.unsat:
+            entry = {"candidate": list(tag), "leaf_range": [lo, hi], "seconds": round(dt, 2)}
+            if XCHECK:
+                from .xcheck import cvc5_check
+                xr, xs = cvc5_check([v >= lo, v <= hi, shape != cand], timeout_s=120)
+                entry["cvc5"] = xr
+                entry["cvc5_seconds"] = round(xs, 2)
+                STATS.setdefault("xcheck", []).append(xr)
+                if xr == "sat":
+                    STATS.setdefault("disagreements", []).append(entry)
+                    STATS["failed"] += 1
+                    continue
             STATS["proved"] += 1
-            STATS["shapes"].append({"candidate": list(tag), "leaf_range": [lo, hi], "seconds": round(dt, 2)})
+            STATS["shapes"].append(entry)
             return tag
         STATS["failed"] += 1
     return ("none",)
